@@ -89,13 +89,22 @@ GHOST uint64_t GX;    // ghost limb index in [RS, extent) of an aliased, longer 
 #define B_AT 0
 #endif
 
-// padding of limb GQ (exists when GQ+1 < REXT and the stride exceeds nn) is bit-for-bit unchanged
-#if (RM > 1 || RA > 0)
-#define HAS_PAD (GQ + 1 < REXT)
+// padding of every limb q with q+1 < REXT (it exists when the stride exceeds nn) is bit-for-bit unchanged: one ghost
+// offset GPAD in [nn, res_sl), one post per limb (limb indices concrete, at most 3 for the box REXT <= 4)
+#if (RM > 1 || RA > 0) && REXT > 1
+#define HAS_PAD 1
+#define PADQ(q) (res[(q)*res_sl + GPAD] == __CPROVER_old(res[(q)*res_sl + GPAD]))
 #else
 #define HAS_PAD 0
+#define PADQ(q) 1
 #endif
-#define ENS_PAD (!HAS_PAD || res[GQ * res_sl + GPAD] == __CPROVER_old(res[(HAS_PAD ? GQ * res_sl + GPAD : 0)]))
+#if REXT > 3
+#define ENS_PAD (PADQ(0) && PADQ(1) && PADQ(2))
+#elif REXT > 2
+#define ENS_PAD (PADQ(0) && PADQ(1))
+#else
+#define ENS_PAD PADQ(0)
+#endif
 // limbs of an aliased longer input beyond res_size are not written
 #define ENS_TAIL (REXT <= RS || res[GX * res_sl + G] == __CPROVER_old(res[(REXT <= RS ? 0 : GX * res_sl + G)]))
 
